@@ -90,7 +90,13 @@ Faults == <<
   [t |-> Mark("function v(n) { return w(n) } function w(n) { return m(n) } function m(n) { return ", Chars("match (n) { z => m(z + 1) }"), " } BEGIN { v(0) }"), class |-> "runtime", exact |-> FALSE],
   [t |-> Mark("function m(n) { return ", Chars("match (n) { z => match (z) { y => m(y + 1) } }"), " } BEGIN { m(0) }"), class |-> "runtime", exact |-> FALSE],
   [t |-> Mark("function w(n) { return m(n) } function m(n) { return ", Chars("match (n) { z => match (z) { y => m(y + 1) } }"), " } BEGIN { w(0) }"), class |-> "runtime", exact |-> FALSE],
-  [t |-> Mark("function m(n) { ", Chars("match (n) { z => { return m(z + 1) } }"), " } BEGIN { x = 1 + m(0) }"), class |-> "runtime", exact |-> FALSE]
+  [t |-> Mark("function m(n) { ", Chars("match (n) { z => { return m(z + 1) } }"), " } BEGIN { x = 1 + m(0) }"), class |-> "runtime", exact |-> FALSE],
+  \* a call that fails after its arguments ran other calls (also calls made inside the callee of an argument)
+  [t |-> Mark("function w(s) { n = s.length(); return n } BEGIN { q = 5; ", Chars("q(w('a'))"), " }"), class |-> "runtime", exact |-> FALSE],
+  [t |-> Mark("function w(s) { n = s.length(); return n } BEGIN { q = 'a,b'; print ", Chars("q.split(w('a'))"), " }"), class |-> "runtime", exact |-> FALSE],
+  [t |-> Mark("function w(s) { return num(s) } BEGIN { print ", Chars("printf('%s %s', w('1'))"), " }"), class |-> "runtime", exact |-> FALSE],
+  [t |-> Mark("function w(s) { return s.upper().lower() } BEGIN { q = [1]; print ", Chars("q.push(w('a'), w('b'))"), " }"), class |-> "runtime", exact |-> FALSE],
+  [t |-> Mark("function w(s) { return s } BEGIN { print w(w(", Chars("nosuch(w(1))"), ")) }"), class |-> "runtime", exact |-> FALSE]
 >>
 
 VARIABLES pre, fi, post, lastNL, done
